@@ -94,6 +94,10 @@ pub mod implementations {
             *val = val.move_out_of_heap_primitive_borrow()?.into_owned();
         }
 
+        if matches!(val, Primitive::Int(i32::MIN) | Primitive::BigInt(i128::MIN)) {
+            bail!("integer overflow: the result of `-({val})` does not fit the type of its operand")
+        }
+
         val.negate()?;
 
         Ok(())
@@ -114,6 +118,42 @@ pub mod implementations {
         };
 
         *val = !*val;
+
+        Ok(())
+    }
+
+    /// `+`, `-` and `*` on two integers (of any width) must not leave the kind the operands promote to: the
+    /// operators themselves panic on overflow, so the interpreter reports it as an error before applying them.
+    fn integer_arithmetic_fits(op: &str, left: &Primitive, right: &Primitive) -> Result<()> {
+        use Primitive::*;
+
+        let widen = |primitive: &Primitive| match primitive {
+            Int(x) => Some(*x as i128),
+            BigInt(x) => Some(*x),
+            Byte(x) => Some(*x as i128),
+            _ => None,
+        };
+
+        let (Some(wide_left), Some(wide_right)) = (widen(left), widen(right)) else {
+            return Ok(());
+        };
+
+        let exact = match op {
+            "+" | "+=" => wide_left.checked_add(wide_right),
+            "-" | "-=" => wide_left.checked_sub(wide_right),
+            "*" | "*=" => wide_left.checked_mul(wide_right),
+            _ => return Ok(()),
+        };
+
+        let fits = match (left, right) {
+            (BigInt(_), _) | (_, BigInt(_)) => exact.is_some(),
+            (Int(_), _) | (_, Int(_)) => exact.is_some_and(|x| i32::try_from(x).is_ok()),
+            _ => exact.is_some_and(|x| u8::try_from(x).is_ok()),
+        };
+
+        if !fits {
+            bail!("integer overflow: the result of `{left} {op} {right}` does not fit the type of its operands")
+        }
 
         Ok(())
     }
@@ -144,6 +184,8 @@ pub mod implementations {
 
         let left = open_present_optional(left);
         let right = open_present_optional(right);
+
+        integer_arithmetic_fits(symbols, &left, &right).context("invalid binary operation")?;
 
         let result = match (symbols.as_str(), &left, &right) {
             ("+", ..) => left + right,
@@ -198,6 +240,8 @@ pub mod implementations {
                 let no_hp = value.move_out_of_heap_primitive_borrow()?;
                 let no_mut: &Primitive = &no_hp;
 
+                integer_arithmetic_fits(op, &bundle.primitive(), no_mut)?;
+
                 match op.as_str() {
                     "+=" => (&*bundle.primitive() + no_mut)?,
                     "-=" => (&*bundle.primitive() - no_mut)?,
@@ -226,6 +270,8 @@ pub mod implementations {
 
             let result = ptr
                 .update(|current| {
+                    integer_arithmetic_fits(op, current.deref(), &value)?;
+
                     Ok(match op.as_str() {
                         "+=" => (current.deref() + &value)?,
                         "-=" => (current.deref() - &value)?,
